@@ -9,6 +9,8 @@ impl Status {
     #[verifier::external_body]
     pub fn not_found<S: Into<String>>(message: S) -> (r: Status) ensures r.code == Code::NotFound { unimplemented!() }
     #[verifier::external_body]
+    pub fn already_exists<S: Into<String>>(message: S) -> (r: Status) ensures r.code == Code::AlreadyExists { unimplemented!() }
+    #[verifier::external_body]
     pub fn internal<S: Into<String>>(message: S) -> (r: Status) ensures r.code == Code::Internal { unimplemented!() }
     #[verifier::external_body]
     pub fn failed_precondition<S: Into<String>>(message: S) -> (r: Status) ensures r.code == Code::FailedPrecondition { unimplemented!() }
